@@ -232,3 +232,31 @@ let () =
           | Some (s1, d1) -> show_view s1 d1 (flip_view ax s1) | None -> "nothing") in
         { model; spec = (if ok then show_arr s data else unspec); dom = ok && posb s }
     | _ -> failwith "flip2")
+
+(* ---- axis-LIST arguments in every container kind (drivers/c03_lists.cpp): the container kind and the
+   compile-time / run-time distinction are not observable, so these ops share the handlers above *)
+let ints_of_name name = List.map (fun t -> z_of_int (int_of_string t)) (String.split_on_char 'x' name)
+let via name f = register name (fun a -> (Hashtbl.find handlers (fst (f a))) (snd (f a)))
+let () =
+  let drop_kind target name = via name (fun a -> match a with _ :: rest -> (target, rest) | _ -> failwith name) in
+  let keep target name = via name (fun a -> (target, a)) in
+  let ct target name = via name (fun a -> match a with
+    | [Str nm; src] -> (target, [src; L (ints_of_name nm)]) | _ -> failwith name) in
+  drop_kind "flip" "flipk"; drop_kind "flip" "flipk_eval"; ct "flip" "flipct";
+  drop_kind "flip_slices" "flip_slicesk";
+  drop_kind "expand_dims" "expandk"; drop_kind "expand_dims" "expandk_eval"; ct "expand_dims" "expandct";
+  keep "expand_dims_shape" "expand_shapek";
+  drop_kind "moveaxis" "moveaxisk"; drop_kind "moveaxis" "moveaxisk_eval"; keep "moveaxis_order" "moveaxis_orderk";
+  via "moveaxisct" (fun a -> match a with
+    | [Str nm; src] -> (match String.split_on_char '_' nm with
+        | [s; d] -> ("moveaxis", [src; L (ints_of_name s); L (ints_of_name d)]) | _ -> failwith "moveaxisct")
+    | _ -> failwith "moveaxisct");
+  keep "transpose" "transposek"; ct "transpose" "transposect";
+  (* flip(flip(a,ax1),ax2) against NumPy's two flips *)
+  register "flip2p" (fun a -> match a with
+    | [src; ax1; ax2] -> let (s, data) = getA src and ax1 = axarg ax1 and ax2 = axarg ax2 in
+        let ok = np_flip_ok (n_of s) ax1 && np_flip_ok (n_of s) ax2 in
+        let model = guard_ub (fun () -> match materialise s data (flip_view ax1 s) with
+          | Some (s1, d1) -> show_view s1 d1 (flip_view ax2 s1) | None -> "nothing") in
+        { model; spec = (if ok then (let (s1, d1) = sp_flip_arr s data ax1 in sp_flip s1 d1 ax2) else unspec); dom = ok && posb s }
+    | _ -> failwith "flip2p")
